@@ -46,8 +46,14 @@ def try_replay(pid, r, rec):
     script = driver_for(r['name'])
     if script is None:
         return {'reproduced': False, 'detail': 'no replay driver for this obligation'}
+    known = []
+    try:
+        kp = os.path.join(VERIF_DIR, 'known_findings.json')
+        known = sorted(k['id'] for k in json.load(open(kp)) if k.get('status') == 'known')
+    except Exception:   # noqa
+        pass
     req = {'property': pid, 'obligation': r['name'], 'inputs': r.get('inputs'), 'where': r.get('where'),
-           'unit': r.get('unit')}
+           'unit': r.get('unit'), 'known': known}
     try:
         res = run_driver(script, req)
     except Exception as e:   # noqa
